@@ -188,4 +188,4 @@ def run(rep, tier, seed, only=None):
     rep.rule = "case = (pre-state, call sequence) whose calls all returned; distinct by pre-state snapshot + calls"
     rep.explanation = "bounded exploration with an independently computed invariant"
     canary(rep)
-    rep.pmap(unit, [seed * 173 + s for s in range(48 if thorough else 16)])
+    rep.pmap(unit, [seed * 173 + s for s in range(192 if thorough else 64)])
